@@ -239,3 +239,31 @@ def names_trimmed(ctx):
     ctx.check(ok and halves == {('0',), ('1',)}, tb.key, 'both halves trimmed',
               'QualifiedAttribute::try_from does not trim the dimension and the component separately (trims: %d, halves trimmed: %s): '
               '"DPT :: FIN" keeps its inner spaces in the names' % (len(tr), sorted(halves)), 'split_once("::") then trim() on each half', tb.where())
+
+
+@rule('C15', 'attributes-from-tokens')
+def attributes_from_tokens(ctx):
+    """Attribute names are recognised only on a token: every call of QualifiedAttribute::try_from made by the parser receives the
+    text collected by take_while(<not a metacharacter>) — never a raw group or the remaining expression, which may still contain
+    parentheses and operators."""
+    F = ctx.F
+    pk = 'abe_policy::access_policy::AccessPolicy::parse'
+    n = 0
+    for fb in lib.reach_bodies(F, pk, stop=['<abe_policy::attribute::QualifiedAttribute as std::convert::TryFrom<&str>>::try_from']):
+        for c in fb.calls(r'QualifiedAttribute as std::convert::TryFrom<&str>>::try_from$|TryFrom::try_from$'):
+            if 'QualifiedAttribute' not in c.full:
+                continue
+            n += 1
+            roots = copy_chain_sources(fb, c.args[0], through_calls=IDENTITY_CALLS + (r'String::as_str$', r'^std::ops::Deref::deref$'))
+            ok = bool(roots)
+            for r in roots:
+                if r[0] != 'call' or not r[1].is_(r'^std::iter::Iterator::collect$'):
+                    ok = False
+                    continue
+                sl = backward_slice(fb, [r[1].args[0]], follow_mutarg=False)
+                if not sl.has_call(r'^std::iter::Iterator::take_while$'):
+                    ok = False
+            ctx.check(ok, pk, 'try_from(token)', 'the parser hands QualifiedAttribute::try_from (line %d) a string that is not a token '
+                      'cut by take_while(..): text containing parentheses or operators can be taken for an attribute name' % c.ln,
+                      'argument = chars().take_while(seeker).collect()', c.where())
+    ctx.floor(n, 1, 'QualifiedAttribute::try_from calls in the parser')
